@@ -1,6 +1,15 @@
 # Property table for the driver. One or more jobs per property; each job is a
 # test of a harness package run as a compiled test binary.
+def _crdt(name, q, t):
+    return {"jobs": [{"pkg": "crdt", "run": "^Test%s$" % name, "checks_quick": q, "checks_thorough": t, "shards_thorough": 16}]}
+
+
 PROPS = {
+    "C01": _crdt("C01", 2500, 3000),
+    "C02": _crdt("C02", 2500, 3000),
+    "C03": _crdt("C03", 2500, 3000),
+    "C04": _crdt("C04", 3000, 4000),
+    "C05": _crdt("C05", 1500, 2000),
     "C19": {"jobs": [{"pkg": "order", "run": "^TestC19$", "checks_quick": 60000, "checks_thorough": 150000, "shards_thorough": 16}]},
 }
 
